@@ -2,7 +2,9 @@
 //! from the Rust source (parsed with `syn`), to be proved equal to the hand-written model
 //! (/verif/coq/model/*.v) in /verif/coq/proofs/SrcEquiv*.v.
 //!
-//! Usage:  rs2coq <src-dir>      (prints gen/Src.v on stdout; see run.sh)
+//! Usage:  rs2coq <src-dir>            (prints gen/Src.v on stdout: rules 1-13 only; see run.sh)
+//!         rs2coq <src-dir> <out-dir>  (writes Src.v, SrcBigint.v, SrcSlow.v, SrcParse.v into the
+//!                                      existing directory <out-dir>: rules 1-23)
 //!
 //! # TRANSLATION RULES (this program is part of the trusted base; the rules are deliberately dumb)
 //!
@@ -33,7 +35,7 @@
 //!     field-wise, justified by `#[derive(PartialEq)]`, which is checked).
 //!  4. `a && b` / `a || b`: pure when `b` is effect-free, else `t <- (if a then <b> else Ok false)`.
 //!  5. `debug_assert!(c)` is `debug_assert b c ;;;`; if `c` has effects they are executed under
-//!     `if dbg b` only.  Other macros are refused.
+//!     `if dbg b` only.  Other macros: rule 20.
 //!  6. `if/else`, `match` on `bool` and on `(x, true|false)`: (a) both branches pure and nothing
 //!     assigned: a Gallina `if`; (b) no `return` inside: `'(outs) <- (if c then … Ok outs else …
 //!     Ok outs) ;;` where `outs` are the outer variables assigned in a branch (sorted by name)
@@ -61,12 +63,106 @@
 //! 11. `while c { body }` (only in functions given a fuel in the target list) is
 //!     `rs_while fuel (fun vars => c) (fun vars => body) vars` (prelude; `Panic PkFuel` when the
 //!     fuel runs out), `vars` = the outer variables assigned in the body.
-//! 12. Statements under `#[cfg(feature = "nightly")]` are dropped (no verified configuration
-//!     enables it).  `unsafe { e }` is `e`.
+//! 12. `let` statements under `#[cfg(feature = "nightly")]` are dropped (no verified configuration
+//!     enables it); any other `cfg` on a statement is an error (but see rule 21).  `unsafe { e }` is `e`.
 //! 13. `u64::MAX`, `i32::MIN`, `u32::BITS`, … and `<int>::max_value()` / `min_value()` are the literal
 //!     values (of that integer type; `BITS` is a `u32`).
-//! Anything else (other statements, patterns, methods, macros, types, nested shadowing of an
-//! outer variable, labelled blocks, `loop`, `for`, …) is an error, and the translator fails closed
+//!
+//! Rules 14-23 translate bigint.rs, the rest of slow.rs, and parse.rs (gen/SrcBigint.v,
+//! gen/SrcSlow.v, gen/SrcParse.v).  Library primitives (loop combinators, slices, iterators, the
+//! vector back-ends) are the hand-written model/SrcLib.v and model/Vec.v; `c : config` carries
+//! `alloc c` (heap or stack vectors) and `compact c`; `L : limits` the vector capacity.  Implicit
+//! parameters are, in this order, `c T BT L f b`.
+//!
+//! 14. Types: `VecType` / `&mut VecType` = `vec`; `&[Limb]` = `list Z` (`&VecType -> &[Limb]` and
+//!     table -> slice coercions at call arguments: `vl x` / identity); `Limb` = u64, `Wide` = u128,
+//!     `LIMB_BITS` = the usize literal 64: the `#[cfg(all(target_pointer_width = "64", not(..sparc)))]`
+//!     declarations in bigint.rs are checked to say so, else everything that mentions these types
+//!     is omitted.  `if LIMB_BITS == 32 {A} else {B}` and match guards `if LIMB_BITS == 32` are
+//!     resolved statically (B / arm dropped).  `Bigint` = its single field `data : VecType`,
+//!     `ReverseView<T>` (only at T = Limb: `rview`'s signature is checked) = its single field
+//!     `inner : &[T]` (struct declarations checked): values are `vec` / `list Z`, `.data` / `.inner`
+//!     and the struct literals are the identity.  `Number { .. }` fields can be assigned (the record
+//!     is rebuilt), `Number::default()` = `mkNumber 0 0 false` (`#[derive(Default)]` checked).
+//!     `Iter: Iterator<Item = &'a u8> [+ Clone]` = `list Z` of the bytes not yet consumed;
+//!     `.clone()` = identity; advancing it rebinds it (an ordinary shadowed local).  Byte literals
+//!     `b'0'` are u8 literals.  `let x = 0;` (unsuffixed literal, no annotation): the type of `x` is
+//!     that of its first typed use (else i32, Rust's fallback); a later use at another type is an
+//!     error.  An unsuffixed literal operand of `as` takes the target type (`10 as Limb` = `10`).
+//!     A `let` that shadows a variable of an enclosing block gets a primed name (`v_x'`).
+//! 15. `Option<()>` functions with `&mut` parameters return `outcome (option (updated params))`:
+//!     `Some(())` = `Some` of the updated values, `None` LOSES them.  That is all a caller can
+//!     observe, because the result of such a call (also of `x.try_push(e)`, `x.try_resize(n, e)`)
+//!     can only be consumed by `?` (`match t with None => Ok None | Some v_x => ..`), by
+//!     `.unwrap()` (`v_x <- unwrap t`), or returned as it is from a function with the same `&mut`
+//!     parameters; any other use (binding it, ignoring it, testing it) is refused.  `*x = e` on a
+//!     `&mut` parameter rebinds it.  `.unwrap()` on any Option = `unwrap` (Panic PkUnwrap).
+//! 16. Loops use SrcLib's combinators; every loop body ends in `Ok (Next s)`, `break` = `Ok (Break
+//!     s)`, `return e` = `Ok (Return r)`, where `s` = the tuple of the outer variables assigned in
+//!     the body (sorted by name, as rule 6; an iterator advanced by `.next()` is one of them) and
+//!     `r` = the function result (rule 7 tuple).  After the loop: `match t with inr r => Ok r | inl
+//!     s => rest end`; when the body cannot `return` the loop is instantiated at `R := Empty_set`
+//!     and followed by `let s := no_return t in`.  Nested loops: the payload type of the inner loop
+//!     is the `ctl` of the outer one: `return e` inside n loops = `Return (.. (Return r))`, a
+//!     labelled `break 'l` = `Return (.. (Break s_l))` and the outer body passes it on with that
+//!     same `inr r => Ok r`.  `continue` and `break` with a value are refused.  `(St := ..)` gives
+//!     the state type explicitly.  `for` over a list is structural; `while c {..}` / `while let
+//!     Some(p) = e {..}` / `loop {..}` are `rs_loop fuel (fun s => if c then body else Ok (Break s))`
+//!     with a fuel EXPRESSION from the TARGETS table (a Coq term over the variables in scope at
+//!     loop entry; one per loop in source order, macros expanded; a wrong count is an error;
+//!     exhausted fuel = Panic PkFuel).  Functions with a numeric fuel keep rule 11.
+//! 17. Iteration sources: `for xi in x.iter_mut()` (`rs_for_mut`: `*xi` reads, `*xi = e` / `*xi op=
+//!     e` write the element variable; no `break` / `return` / `?` inside), `for p in &mut it`
+//!     (`rs_for_iter`: the rest is rebound to `it`), `for p in e` with `e` a list expression:
+//!     an iterator variable (consumed), `s.iter()` (`s` a slice, table or vector), `.rev()`,
+//!     `.enumerate()` (`enumerate_from 0`), `.skip(k)` with literal k (`skipn k`), `a.zip(b)`
+//!     (`combine a b`), `.clone()`.  These are also values (`let iter = ..`).  `it.next()` =
+//!     `let '(t, v_it) := iter_next v_it`, `it.count()` = `zlen it`, `e.any(|p| pure)` = `existsb
+//!     (fun p => ..) e`.  Patterns: identifiers, `&`, `_`, tuples of those.
+//! 18. Places: `x[i]` on a slice / vector = `slice_get` / `vec_get` (Panic PkIndex), `&s[..n]` =
+//!     `slice_to`, `x[i] = e` = `v_x <- vec_set v_x i e` (value, then index, then store), `rslc[i]`
+//!     on a ReverseView = the translated `ReverseView::index`.  `let xi = x.get_mut(i).unwrap();`
+//!     makes `xi` an alias: the index is evaluated once, `unwrap (slice_get_opt (vl v_x) i) ;;;`,
+//!     then `*xi` reads `vec_get v_x i` and `*xi = e` is `v_x <- vec_set v_x i e`.  `x.get(i)` =
+//!     `slice_get_opt`; `x.len()` / `capacity()` / `is_empty()` = `vlen` / `vcap` / `vlen x =? 0`
+//!     (`zlen` on slices); `VecType::new()` = `vnew L`, `VecType::try_from(s)` = `try_from (alloc c)
+//!     L s`, `x.try_push(e)` / `x.try_resize(n, e)` = `try_push / try_resize (alloc c) ..` (rule 15),
+//!     `unsafe { x.set_len(n) }` = `v_x <- vec_set_len v_x n` (SrcLib: truncation, else UB).
+//!     `if let Some(p) = e {A} else {B}` / `while let` = `match e with Some p => A | None => B end`.
+//! 19. `match` on integers (literal arms), on `Option<int>` (`Some(&0)`, `None`) and on
+//!     `cmp::Ordering` (= Coq `comparison`; `a.cmp(&b)` on integers = `Z.compare a b`): the arms
+//!     are tried in order as nested `if test then .. else ..` on the scrutinee (evaluated once),
+//!     `Equal` = `(match t with Eq => true | _ => false end)`, a guard is `&&`-ed (effect-free), a
+//!     binding arm `ord => ..` / `_` always matches, the LAST arm is the final `else` (Rust has
+//!     checked exhaustiveness).  `|` `&` `^` on bool = `||` `&&` `xorb`.
+//! 20. `macro_rules!` macros of the same file are expanded before lowering (macros.rs: fragment
+//!     kinds `ident`, `expr`; literal tokens such as `@mul`; recursive uses; an `expr` argument
+//!     stays one operand).  No hygiene: an invocation whose arguments mention an identifier that
+//!     the macro binds (`let` / `for`) is refused; the expansion is a scope of its own and may not
+//!     declare top-level `let`s.  Anything else the expander does not understand is an error.
+//! 21. `#[cfg(feature = "compact")]` / `#[cfg(not(feature = "compact"))]` on a statement (not a
+//!     `let`) = `if compact c then .. else ..`; two adjacent statements with complementary
+//!     conditions are the two branches of one `if`.  `LARGE_POW5` (the 64-bit declaration),
+//!     `LARGE_POW5_STEP` = fields of `T` (declared types checked).  `a.pow(k)` on an unsigned type
+//!     is evaluated by the translator when `a`, `k` are literals, casts of literals or immutable
+//!     locals bound to a literal (`(5 as Limb).pow(small_step)`; checked to fit); otherwise refused.
+//! 22. A method of `impl Bigint` / of the vector back-ends whose body is ONE delegating call that
+//!     passes the receiver (`self`, `&self.data`, ..) first and then every parameter exactly once,
+//!     in order (`bigint::small_mul(self, y)`, `self.data.hi64()`, `Self { data:
+//!     VecType::from_u64(value) }`) is replaced at the call site by that call with the actual
+//!     receiver / arguments (same evaluation order).  For `VecType` the bodies in stackvec.rs AND
+//!     heapvec.rs (also `impl Ord`: `cmp`) must be the same call.  Anything else => the caller is
+//!     omitted.  `Bigint::pow` is translated (`rs_bigint_pow`).  A free function `m::f` / `f` is the
+//!     `f` of m.rs / of the same file / the only translated `f`.
+//! 23. Given by name, not translated: `shl_limbs` of bigint.rs (raw pointer code) = SrcLib's
+//!     `rs_shl_limbs` (the text of model/Bigint.v's `shl_limbs`; its signature is checked), and the
+//!     primitives of rule 10.  Everything else that slow.rs / parse.rs call (`round`, `lemire`,
+//!     `bellerophon`, `scientific_exponent`, `bh`, `extended_to_float`, `try_fast_path`, ..) is the
+//!     rs_ translation in Src.v.  Closures passed to `round` / `round_nearest_tie_even` (rule 8)
+//!     may capture locals and use `_` parameters.
+//!
+//! Anything else (other statements, patterns, methods, macros, types, labelled blocks, `continue`,
+//! …) is an error, and the translator fails closed
 //! PER FUNCTION: a function that cannot be translated is omitted from the output (a comment
 //! `(* OMITTED rs_<name>: <reason> *)` takes its place), and so are, transitively, the functions
 //! that call it; each omission is reported on stderr, followed by `rs2coq: omitted: <names|none>`,
@@ -75,10 +171,13 @@
 //! meaningless (a source file is missing or does not parse, or a struct / trait / table
 //! declaration that the mapping of rules 9-10 relies on has changed).
 
+mod ctrl;
 mod emit;
 mod expr;
 mod lower;
+mod macros;
 mod ty;
+mod vecs;
 
 use emit::Emitter;
 use lower::*;
@@ -86,41 +185,115 @@ use std::collections::HashMap;
 use syn::spanned::Spanned;
 use ty::*;
 
-/// What to translate: (file, impl/trait owner or "", function, loop fuel).  The order is the
-/// dependency order (a callee must come first).
-const TARGETS: &[(&str, &str, &str, u32)] = &[
-    ("mask.rs", "", "nth_bit", 0),
-    ("mask.rs", "", "lower_n_mask", 0),
-    ("mask.rs", "", "lower_n_halfway", 0),
-    ("num.rs", "Float", "is_denormal", 0),
-    ("num.rs", "Float", "exponent", 0),
-    ("num.rs", "Float", "mantissa", 0),
-    ("extended_float.rs", "", "extended_to_float", 0),
-    ("rounding.rs", "", "round_nearest_tie_even", 0),
-    ("rounding.rs", "", "round_down", 0),
-    ("rounding.rs", "", "round", 0),
-    ("number.rs", "Number", "is_fast_path", 0),
-    ("number.rs", "Number", "try_fast_path", 0),
-    ("lemire.rs", "", "power", 0),
-    ("lemire.rs", "", "full_multiplication", 0),
-    ("lemire.rs", "", "compute_product_approx", 0),
-    ("lemire.rs", "", "compute_error_scaled", 0),
-    ("lemire.rs", "", "compute_error", 0),
-    ("lemire.rs", "", "compute_float", 0),
-    ("lemire.rs", "", "lemire", 0),
-    ("bellerophon.rs", "", "error_scale", 0),
-    ("bellerophon.rs", "", "error_halfscale", 0),
-    ("bellerophon.rs", "", "normalize", 0),
-    ("bellerophon.rs", "", "mul", 0),
-    ("bellerophon.rs", "BellerophonPowers", "get_small", 0),
-    ("bellerophon.rs", "BellerophonPowers", "get_large", 0),
-    ("bellerophon.rs", "BellerophonPowers", "get_small_int", 0),
-    ("bellerophon.rs", "", "error_is_accurate", 0),
-    ("bellerophon.rs", "", "bellerophon", 0),
-    ("slow.rs", "", "b", 0),
-    ("slow.rs", "", "bh", 0),
-    ("slow.rs", "", "scientific_exponent", 20),
+/// What to translate.  The order is the dependency order (a callee must come first).
+struct Target {
+    /// index into OUT_FILES
+    out: usize,
+    file: &'static str,
+    /// impl / trait owner or ""
+    owner: &'static str,
+    name: &'static str,
+    /// rule 11: numeric fuel of the `while` loops (`rs_while`); 0 = none
+    fuel: u32,
+    /// rule 16: fuel expressions of the `while` / `loop`s, in source order
+    fuels: &'static [&'static str],
+    /// Gallina name when it is not `rs_<name>`
+    coq: &'static str,
+}
+
+const fn t(out: usize, file: &'static str, owner: &'static str, name: &'static str) -> Target {
+    Target { out, file, owner, name, fuel: 0, fuels: &[], coq: "" }
+}
+const fn tf(out: usize, file: &'static str, name: &'static str, fuels: &'static [&'static str]) -> Target {
+    Target { out, file, owner: "", name, fuel: 0, fuels, coq: "" }
+}
+const fn tn(out: usize, file: &'static str, owner: &'static str, name: &'static str, fuels: &'static [&'static str], coq: &'static str) -> Target {
+    Target { out, file, owner, name, fuel: 0, fuels, coq }
+}
+
+const OUT_FILES: [&str; 4] = ["Src.v", "SrcBigint.v", "SrcSlow.v", "SrcParse.v"];
+
+const TARGETS: &[Target] = &[
+    t(0, "mask.rs", "", "nth_bit"),
+    t(0, "mask.rs", "", "lower_n_mask"),
+    t(0, "mask.rs", "", "lower_n_halfway"),
+    t(0, "num.rs", "Float", "is_denormal"),
+    t(0, "num.rs", "Float", "exponent"),
+    t(0, "num.rs", "Float", "mantissa"),
+    t(0, "extended_float.rs", "", "extended_to_float"),
+    t(0, "rounding.rs", "", "round_nearest_tie_even"),
+    t(0, "rounding.rs", "", "round_down"),
+    t(0, "rounding.rs", "", "round"),
+    t(0, "number.rs", "Number", "is_fast_path"),
+    t(0, "number.rs", "Number", "try_fast_path"),
+    t(0, "lemire.rs", "", "power"),
+    t(0, "lemire.rs", "", "full_multiplication"),
+    t(0, "lemire.rs", "", "compute_product_approx"),
+    t(0, "lemire.rs", "", "compute_error_scaled"),
+    t(0, "lemire.rs", "", "compute_error"),
+    t(0, "lemire.rs", "", "compute_float"),
+    t(0, "lemire.rs", "", "lemire"),
+    t(0, "bellerophon.rs", "", "error_scale"),
+    t(0, "bellerophon.rs", "", "error_halfscale"),
+    t(0, "bellerophon.rs", "", "normalize"),
+    t(0, "bellerophon.rs", "", "mul"),
+    t(0, "bellerophon.rs", "BellerophonPowers", "get_small"),
+    t(0, "bellerophon.rs", "BellerophonPowers", "get_large"),
+    t(0, "bellerophon.rs", "BellerophonPowers", "get_small_int"),
+    t(0, "bellerophon.rs", "", "error_is_accurate"),
+    t(0, "bellerophon.rs", "", "bellerophon"),
+    t(0, "slow.rs", "", "b"),
+    t(0, "slow.rs", "", "bh"),
+    Target { out: 0, file: "slow.rs", owner: "", name: "scientific_exponent", fuel: 20, fuels: &[], coq: "" },
+    // ---- gen/SrcBigint.v
+    t(1, "bigint.rs", "", "scalar_add"),
+    t(1, "bigint.rs", "", "scalar_mul"),
+    t(1, "bigint.rs", "", "compare"),
+    tn(1, "bigint.rs", "", "normalize", &["S (length (vl v_x))"], "rs_bigint_normalize"),
+    t(1, "bigint.rs", "", "is_normalized"),
+    t(1, "bigint.rs", "", "from_u64"),
+    t(1, "bigint.rs", "", "nonzero"),
+    t(1, "bigint.rs", "", "u64_to_hi64_1"),
+    t(1, "bigint.rs", "", "u64_to_hi64_2"),
+    tn(1, "bigint.rs", "ReverseView", "index", &[], "rs_rview_index"),
+    t(1, "bigint.rs", "", "rview"),
+    t(1, "bigint.rs", "", "hi64"),
+    tf(1, "bigint.rs", "small_add_from", &["S (length (vl v_x))"]),
+    t(1, "bigint.rs", "", "small_add"),
+    t(1, "bigint.rs", "", "small_mul"),
+    t(1, "bigint.rs", "", "large_add_from"),
+    t(1, "bigint.rs", "", "large_add"),
+    t(1, "bigint.rs", "", "long_mul"),
+    t(1, "bigint.rs", "", "large_mul"),
+    t(1, "bigint.rs", "", "shl_bits"),
+    t(1, "bigint.rs", "", "shl"),
+    t(1, "bigint.rs", "", "leading_zeros"),
+    t(1, "bigint.rs", "", "bit_length"),
+    tf(1, "bigint.rs", "pow", &["S (Z.to_nat (v_exp / LARGE_POW5_STEP T))", "S (Z.to_nat (v_exp / 27))"]),
+    tn(1, "bigint.rs", "Bigint", "pow", &[], "rs_bigint_pow"),
+    // ---- gen/SrcSlow.v
+    tf(
+        2,
+        "slow.rs",
+        "parse_mantissa",
+        &["S (S (length v_integer))", "S (length v_integer)", "S (S (length v_fraction))", "S (length v_fraction)"],
+    ),
+    t(2, "slow.rs", "", "positive_digit_comp"),
+    t(2, "slow.rs", "", "negative_digit_comp"),
+    t(2, "slow.rs", "", "slow"),
+    // ---- gen/SrcParse.v
+    t(3, "parse.rs", "", "into_i32"),
+    t(3, "parse.rs", "", "add_digit"),
+    t(3, "parse.rs", "", "parse_number_fast"),
+    tf(3, "parse.rs", "parse_number", &["S (length v_integer)"]),
+    t(3, "parse.rs", "", "moderate_path"),
+    t(3, "parse.rs", "", "parse_float"),
 ];
+
+/// source files of the original targets (Src.v) and of the extension
+const FILES_SRC: &[&str] =
+    &["mask.rs", "num.rs", "extended_float.rs", "rounding.rs", "number.rs", "lemire.rs", "bellerophon.rs", "slow.rs", "table_lemire.rs"];
+const FILES_EXT: &[&str] = &["bigint.rs", "stackvec.rs", "heapvec.rs", "parse.rs", "table_small.rs"];
 
 fn fail(msg: String) -> ! {
     eprintln!("rs2coq: ERROR: {}", msg);
@@ -140,8 +313,7 @@ fn has_derive(attrs: &[syn::Attribute], what: &str) -> bool {
     })
 }
 
-/// check a struct declaration against the field mapping hard-wired in `field_of`
-fn check_struct(file: &syn::File, fname: &str, name: &str, fields: &[(&str, &str)], need_eq: bool) {
+fn struct_fields<'a>(file: &'a syn::File, name: &str) -> Option<(Vec<(String, String)>, &'a syn::ItemStruct)> {
     for it in &file.items {
         if let syn::Item::Struct(s) = it {
             if s.ident == name {
@@ -153,18 +325,126 @@ fn check_struct(file: &syn::File, fname: &str, name: &str, fields: &[(&str, &str
                         (f.ident.as_ref().unwrap().to_string(), quote::quote!(#t).to_string().replace(' ', ""))
                     })
                     .collect();
-                let want: Vec<(String, String)> = fields.iter().map(|(a, b)| (a.to_string(), b.to_string())).collect();
-                if got != want {
-                    fail(format!("{}: struct {} is {:?}, the translator expects {:?}", fname, name, got, want));
-                }
-                if need_eq && !has_derive(&s.attrs, "PartialEq") {
-                    fail(format!("{}: struct {} no longer derives PartialEq", fname, name));
-                }
-                return;
+                return Some((got, s));
             }
         }
     }
-    fail(format!("{}: struct {} not found", fname, name));
+    None
+}
+
+/// check a struct declaration against the field mapping hard-wired in `field_of`
+fn check_struct(file: &syn::File, fname: &str, name: &str, fields: &[(&str, &str)], need_eq: bool) {
+    match struct_fields(file, name) {
+        Some((got, s)) => {
+            let want: Vec<(String, String)> = fields.iter().map(|(a, b)| (a.to_string(), b.to_string())).collect();
+            if got != want {
+                fail(format!("{}: struct {} is {:?}, the translator expects {:?}", fname, name, got, want));
+            }
+            if need_eq && !has_derive(&s.attrs, "PartialEq") {
+                fail(format!("{}: struct {} no longer derives PartialEq", fname, name));
+            }
+        }
+        None => fail(format!("{}: struct {} not found", fname, name)),
+    }
+}
+
+/// `#[cfg(..)]` selecting the 64-bit limb: Some(true) = the 64-bit side, Some(false) = the other
+/// side, None = no such attribute
+fn cfg_limb64(attrs: &[syn::Attribute]) -> Option<bool> {
+    const C64: &str = "all(target_pointer_width=\"64\",not(target_arch=\"sparc\"))";
+    for a in attrs {
+        if a.path().is_ident("cfg") {
+            if let Ok(l) = a.meta.require_list() {
+                let s: String = l.tokens.to_string().chars().filter(|c| !c.is_whitespace()).collect();
+                if s == C64 {
+                    return Some(true);
+                }
+                if s == format!("not({})", C64) {
+                    return Some(false);
+                }
+            }
+        }
+    }
+    None
+}
+
+fn ty_str(t: &syn::Type) -> String {
+    quote::quote!(#t).to_string().replace(' ', "")
+}
+
+fn expr_str(e: &syn::Expr) -> String {
+    quote::quote!(#e).to_string().replace(' ', "")
+}
+
+/// rule 14: the declarations behind `Limb`, `Wide`, `LIMB_BITS`, `VecType`, `Bigint`, `ReverseView`
+fn check_limb_decls(bigint: &syn::File) -> Result<(), String> {
+    let mut limb = None;
+    let mut wide = None;
+    let mut bits = None;
+    let mut vec_stack = false;
+    let mut vec_heap = false;
+    let cfg_str = |attrs: &[syn::Attribute]| -> String {
+        attrs
+            .iter()
+            .filter(|a| a.path().is_ident("cfg"))
+            .filter_map(|a| a.meta.require_list().ok().map(|l| l.tokens.to_string().chars().filter(|c| !c.is_whitespace()).collect::<String>()))
+            .collect::<Vec<_>>()
+            .join(";")
+    };
+    for it in &bigint.items {
+        match it {
+            syn::Item::Type(t) if t.ident == "Limb" && cfg_limb64(&t.attrs) == Some(true) => limb = Some(ty_str(&t.ty)),
+            syn::Item::Type(t) if t.ident == "Wide" && cfg_limb64(&t.attrs) == Some(true) => wide = Some(ty_str(&t.ty)),
+            syn::Item::Const(c) if c.ident == "LIMB_BITS" && cfg_limb64(&c.attrs) == Some(true) => {
+                bits = Some((ty_str(&c.ty), expr_str(&c.expr)))
+            }
+            syn::Item::Type(t) if t.ident == "VecType" => match (cfg_str(&t.attrs).as_str(), ty_str(&t.ty).as_str()) {
+                ("not(feature=\"alloc\")", "StackVec") => vec_stack = true,
+                ("feature=\"alloc\"", "HeapVec") => vec_heap = true,
+                (c, t) => return Err(format!("bigint.rs: unexpected `type VecType = {}` under cfg({})", t, c)),
+            },
+            _ => {}
+        }
+    }
+    if limb.as_deref() != Some("u64") || wide.as_deref() != Some("u128") {
+        return Err("bigint.rs: the 64-bit configuration no longer declares `Limb = u64` / `Wide = u128`".into());
+    }
+    if bits != Some(("usize".to_string(), "64".to_string())) {
+        return Err("bigint.rs: the 64-bit configuration no longer declares `LIMB_BITS: usize = 64`".into());
+    }
+    if !vec_stack || !vec_heap {
+        return Err("bigint.rs: `VecType` is no longer `StackVec` / `HeapVec` selected by feature `alloc`".into());
+    }
+    match struct_fields(bigint, "Bigint") {
+        Some((f, _)) if f == vec![("data".to_string(), "VecType".to_string())] => {}
+        _ => return Err("bigint.rs: `struct Bigint` is no longer `{ data: VecType }`".into()),
+    }
+    match struct_fields(bigint, "ReverseView") {
+        Some((f, _)) if f == vec![("inner".to_string(), "&'a[T]".to_string())] => {}
+        _ => return Err("bigint.rs: `struct ReverseView` is no longer `{ inner: &'a [T] }`".into()),
+    }
+    // `ReverseView<T>` is only built by `rview`, at `T = Limb`
+    match find_fn(bigint, "", "rview") {
+        Some((sig, _)) => {
+            let ins: Vec<String> = sig
+                .inputs
+                .iter()
+                .map(|a| match a {
+                    syn::FnArg::Typed(pt) => ty_str(&pt.ty),
+                    _ => "self".into(),
+                })
+                .collect();
+            let out = match &sig.output {
+                syn::ReturnType::Type(_, t) => ty_str(t),
+                _ => String::new(),
+            };
+            if ins != vec!["&[Limb]".to_string()] || out != "ReverseView<Limb>" {
+                return Err("bigint.rs: `rview` is no longer `fn(&[Limb]) -> ReverseView<Limb>`".into());
+            }
+        }
+        None => return Err("bigint.rs: `rview` not found".into()),
+    }
+    Ok(())
 }
 
 fn find_fn<'a>(file: &'a syn::File, owner: &str, name: &str) -> Option<(&'a syn::Signature, &'a syn::Block)> {
@@ -180,9 +460,10 @@ fn find_fn<'a>(file: &'a syn::File, owner: &str, name: &str) -> Option<(&'a syn:
                     }
                 }
             }
-            syn::Item::Impl(im) if im.trait_.is_none() => {
+            // inherent impls, and `impl ops::Index<usize> for ReverseView` (its `index`)
+            syn::Item::Impl(im) if im.trait_.is_none() || (owner == "ReverseView" && name == "index") => {
                 if let syn::Type::Path(p) = &*im.self_ty {
-                    if p.path.is_ident(owner) {
+                    if p.path.segments.last().map(|s| s.ident == owner).unwrap_or(false) {
                         for ii in &im.items {
                             if let syn::ImplItem::Fn(f) = ii {
                                 if f.sig.ident == name {
@@ -199,8 +480,9 @@ fn find_fn<'a>(file: &'a syn::File, owner: &str, name: &str) -> Option<(&'a syn:
     None
 }
 
-/// `Cb: Fn(&mut ExtendedFloat, i32)` bounds → callback types
-fn callback_types(sig: &syn::Signature) -> R<HashMap<String, Ty>> {
+/// generic parameters: `Cb: Fn(&mut ExtendedFloat, i32)` bounds → callback types,
+/// `Iter: Iterator<Item = &'a u8> [+ Clone]` → a digit iterator (rule 14)
+fn generic_types(sig: &syn::Signature) -> R<HashMap<String, Ty>> {
     let mut m = HashMap::new();
     let mut add = |name: String, bounds: &syn::punctuated::Punctuated<syn::TypeParamBound, syn::Token![+]>| -> R<()> {
         for b in bounds {
@@ -218,7 +500,13 @@ fn callback_types(sig: &syn::Signature) -> R<HashMap<String, Ty>> {
                         };
                         m.insert(name.clone(), Ty::Fun(ps, Box::new(r)));
                     }
-                } else if seg.ident != "Float" {
+                } else if seg.ident == "Iterator" {
+                    let args: String = quote::quote!(#seg).to_string().replace(' ', "");
+                    if args != "Iterator<Item=&'au8>" {
+                        return err(tb.span(), format!("unsupported iterator bound `{}`", args));
+                    }
+                    m.insert(name.clone(), Ty::Seq(Box::new(Ty::Int(IntTy::U8))));
+                } else if seg.ident != "Float" && seg.ident != "Clone" {
                     return err(tb.span(), format!("unsupported bound `{}`", seg.ident));
                 }
             }
@@ -246,31 +534,47 @@ fn callback_types(sig: &syn::Signature) -> R<HashMap<String, Ty>> {
     Ok(m)
 }
 
-fn translate(g: &Globals, owner: &str, sig: &syn::Signature, body: &syn::Block, fuel: u32) -> R<(FnInfo, String)> {
+fn translate(g: &Globals, tg: &Target, sig: &syn::Signature, body: &syn::Block) -> R<(FnInfo, String)> {
+    let owner = tg.owner;
     let name = sig.ident.to_string();
-    let cbs = callback_types(sig)?;
     let mut cx = Cx::new(g);
-    cx.loop_fuel = fuel;
+    cx.tparams = generic_types(sig)?;
+    cx.loop_fuel = tg.fuel;
+    cx.fuels = tg.fuels.iter().map(|s| s.to_string()).collect();
+    cx.file = tg.file.to_string();
     cx.self_kind = if owner.is_empty() { None } else { Some(owner.to_string()) };
     let mut params: Vec<(Ty, bool)> = vec![];
+    let mut self_param: Option<(Ty, bool)> = None;
     let mut binders: Vec<String> = vec![];
     for inp in &sig.inputs {
         match inp {
             syn::FnArg::Receiver(r) => {
-                if r.mutability.is_some() && r.reference.is_some() {
-                    return err(r.span(), "`&mut self` is unsupported");
-                }
+                let mutref = r.mutability.is_some() && r.reference.is_some();
                 let ty = match owner {
                     "Float" => Ty::Float,
                     "Number" => Ty::Num,
+                    "Bigint" => Ty::Big,
+                    "ReverseView" => Ty::RView,
                     "BellerophonPowers" => continue, // `self` is the constant BASE10_POWERS = BT
                     _ => return err(r.span(), "`self` in an unknown impl"),
                 };
+                if mutref && ty != Ty::Big {
+                    return err(r.span(), "`&mut self` is unsupported");
+                }
+                if matches!(ty, Ty::Big | Ty::RView) {
+                    if let Err(m) = &g.limb_ok {
+                        return err(r.span(), m);
+                    }
+                }
                 if owner == "Float" {
                     cx.needs.f = true;
                 }
-                cx.scopes[0].insert("self".into(), Var { ty: ty.clone(), mutref: false });
+                cx.scopes[0].insert("self".into(), Var::plain(ty.clone(), mutref, vname("self")));
+                if mutref {
+                    cx.mut_params.push("self".into());
+                }
                 binders.push(format!("(v_self : {})", ty.coq()));
+                self_param = Some((ty, mutref));
             }
             syn::FnArg::Typed(pt) => {
                 let id = match &*pt.pat {
@@ -278,16 +582,11 @@ fn translate(g: &Globals, owner: &str, sig: &syn::Signature, body: &syn::Block, 
                     p => return err(p.span(), "unsupported parameter pattern"),
                 };
                 let mutref = is_mut_ref(&pt.ty);
-                let ty = match &*pt.ty {
-                    syn::Type::Path(p) if p.path.get_ident().map(|i| cbs.contains_key(&i.to_string())).unwrap_or(false) => {
-                        cbs[&p.path.get_ident().unwrap().to_string()].clone()
-                    }
-                    t => conv_ty(t)?,
-                };
+                let ty = cx.conv_ty(&pt.ty)?;
                 if ty == Ty::Float {
                     cx.needs.f = true;
                 }
-                cx.scopes[0].insert(id.clone(), Var { ty: ty.clone(), mutref });
+                cx.scopes[0].insert(id.clone(), Var::plain(ty.clone(), mutref, vname(&id)));
                 if mutref {
                     cx.mut_params.push(id.clone());
                 }
@@ -298,28 +597,38 @@ fn translate(g: &Globals, owner: &str, sig: &syn::Signature, body: &syn::Block, 
     }
     let ret = match &sig.output {
         syn::ReturnType::Default => Ty::Unit,
-        syn::ReturnType::Type(_, t) => conv_ty(t)?,
+        syn::ReturnType::Type(_, t) => cx.conv_ty(t)?,
     };
     if ret == Ty::Float {
         cx.needs.f = true;
+    }
+    if matches!(ret, Ty::Opt(_)) && ret != Ty::Opt(Box::new(Ty::Unit)) && !cx.mut_params.is_empty() {
+        return err(sig.span(), "a function with `&mut` parameters returning `Option<T>`, T other than `()`");
     }
     cx.ret_ty = ret.clone();
     // the body is lowered in the parameter scope (Rust allows `let x = …` to shadow a parameter)
     let v = cx.lower_stmts(&body.stmts, Some(&ret))?;
     if !v.never {
-        if v.ty != ret {
+        if !cx.ret_compatible(&v, &ret) {
             return err(body.span(), format!("body has type {} but the function returns {}", v.ty, ret));
         }
         let t = cx.ret_term(&v);
         cx.push(emit::S::Ret(t));
+    }
+    if cx.fuel_ix != cx.fuels.len() {
+        return err(body.span(), format!("the target table gives {} fuel expressions but the function has {} `while` / `loop`s", cx.fuels.len(), cx.fuel_ix));
     }
     let mut em = Emitter::new();
     let text = cx.finish(&mut em, 2);
     if let Some(e) = em.errors.first() {
         return Err(e.clone());
     }
-    let res_ty = fun_result(&params, &ret);
-    let coq_name = format!("rs_{}", name);
+    let mut all = params.clone();
+    if let Some(sp) = &self_param {
+        all.insert(0, sp.clone());
+    }
+    let res_ty = fun_result(&all, &ret);
+    let coq_name = if tg.coq.is_empty() { format!("rs_{}", name) } else { tg.coq.to_string() };
     let needs = cx.needs;
     let def = format!(
         "Definition {} {}{}{} : outcome {} :=\n{}.\n",
@@ -330,12 +639,14 @@ fn translate(g: &Globals, owner: &str, sig: &syn::Signature, body: &syn::Block, 
         res_ty.coq(),
         text
     );
-    Ok((FnInfo { coq_name, needs, params, ret }, def))
+    Ok((FnInfo { coq_name, needs, params, ret, self_param }, def))
 }
+
+const GENERATED: &str = "(* GENERATED by tools/rs2coq from the Rust source (see tools/rs2coq/src/main.rs for the\n   translation rules).  DO NOT EDIT; regenerate with tools/rs2coq/run.sh. *)\n";
 
 fn prelude() -> String {
     let mut s = String::new();
-    s.push_str("(* GENERATED by tools/rs2coq from the Rust source (see tools/rs2coq/src/main.rs for the\n   translation rules).  DO NOT EDIT; regenerate with tools/rs2coq/run.sh. *)\n");
+    s.push_str(GENERATED);
     s.push_str("From Coq Require Import ZArith List Bool.\n");
     s.push_str("From ML Require Import base.RustSem model.Fmt model.FloatOps model.Num model.Number.\n");
     s.push_str("Import ListNotations.\nOpen Scope Z_scope.\nOpen Scope rust_scope.\n\n");
@@ -380,15 +691,94 @@ fn prelude() -> String {
     s
 }
 
+/// header of gen/SrcBigint.v, gen/SrcSlow.v, gen/SrcParse.v
+fn prelude_ext(out: usize) -> String {
+    let mut s = String::new();
+    s.push_str(GENERATED);
+    s.push_str("From Coq Require Import ZArith List Bool.\n");
+    match out {
+        1 => s.push_str("From ML Require Import base.RustSem model.Fmt model.Vec model.Number model.SrcLib gen.Src.\n"),
+        2 => s.push_str(
+            "From ML Require Import base.RustSem model.Fmt model.FloatOps model.Num model.Number model.Vec model.SrcLib\n  gen.Src gen.SrcBigint.\n",
+        ),
+        _ => s.push_str(
+            "From ML Require Import base.RustSem model.Fmt model.FloatOps model.Num model.Number model.Vec model.SrcLib\n  gen.Src gen.SrcBigint gen.SrcSlow.\n",
+        ),
+    }
+    s.push_str("Import ListNotations.\nOpen Scope Z_scope.\nOpen Scope rust_scope.\n\n");
+    s
+}
+
+/// the delegating methods of the two vector back-ends (they must agree) and of `impl Bigint`
+fn collect_delegations(files: &HashMap<String, syn::File>, g: &mut Globals) {
+    use vecs::{deleg_of, Deleg};
+    let methods = |file: &syn::File, owner: &str, vec_like: bool| -> HashMap<String, Result<Deleg, String>> {
+        let mut m = HashMap::new();
+        for it in &file.items {
+            if let syn::Item::Impl(im) = it {
+                let is_owner = matches!(&*im.self_ty, syn::Type::Path(p) if p.path.is_ident(owner));
+                let ok_trait = match &im.trait_ {
+                    None => true,
+                    Some((_, p, _)) => p.segments.last().map(|s| s.ident == "Ord").unwrap_or(false),
+                };
+                if is_owner && ok_trait {
+                    for ii in &im.items {
+                        if let syn::ImplItem::Fn(f) = ii {
+                            let self_ty = if vec_like { Ty::Vec } else { Ty::Big };
+                            let d = deleg_of(&f.sig, &f.block, vec_like).map(|mut d| {
+                                d.ret = match &f.sig.output {
+                                    syn::ReturnType::Default => Some(Ty::Unit),
+                                    syn::ReturnType::Type(_, t) => conv_ty_in(t, &self_ty, false).ok(),
+                                };
+                                d
+                            });
+                            m.insert(f.sig.ident.to_string(), d);
+                        }
+                    }
+                }
+            }
+        }
+        m
+    };
+    let st = methods(&files["stackvec.rs"], "StackVec", true);
+    let hp = methods(&files["heapvec.rs"], "HeapVec", true);
+    for (name, a) in &st {
+        let r = match (a, hp.get(name)) {
+            (Ok(x), Some(Ok(y))) => {
+                if x.body.show() == y.body.show() && x.self_mut == y.self_mut && x.nparams == y.nparams {
+                    Ok(x.clone())
+                } else {
+                    Err(format!("stackvec.rs delegates to `{}` but heapvec.rs to `{}`", x.body.show(), y.body.show()))
+                }
+            }
+            (Err(e), _) => Err(format!("stackvec.rs: {}", e)),
+            (_, Some(Err(e))) => Err(format!("heapvec.rs: {}", e)),
+            (_, None) => Err("not defined in heapvec.rs".to_string()),
+        };
+        g.deleg.insert(format!("VecType::{}", name), r);
+    }
+    for (name, d) in methods(&files["bigint.rs"], "Bigint", false) {
+        g.deleg.insert(format!("Bigint::{}", name), d);
+    }
+}
+
 fn main() {
     let args: Vec<String> = std::env::args().collect();
     if args.len() < 2 {
-        fail("usage: rs2coq <src-dir> [only-function ...]".into());
+        fail("usage: rs2coq <src-dir> [<out-dir> | only-function ...]".into());
     }
     let dir = &args[1];
+    // `rs2coq <src-dir> <out-dir>`: all four files; `rs2coq <src-dir>`: gen/Src.v on stdout
+    let out_dir: Option<&String> = if args.len() == 3 && std::path::Path::new(&args[2]).is_dir() { Some(&args[2]) } else { None };
+    let ext = out_dir.is_some();
     let mut files: HashMap<String, syn::File> = HashMap::new();
-    for n in ["mask.rs", "num.rs", "extended_float.rs", "rounding.rs", "number.rs", "lemire.rs", "bellerophon.rs", "slow.rs", "table_lemire.rs"] {
+    for n in FILES_SRC {
         files.insert(n.to_string(), parse_file(dir, n));
+    }
+    if ext {
+        for n in FILES_EXT {
+            files.insert(n.to_string(), parse_file(dir, n));
+        }
     }
     // ---- declarations the translation relies on
     check_struct(&files["extended_float.rs"], "extended_float.rs", "ExtendedFloat", &[("mant", "u64"), ("exp", "i32")], true);
@@ -419,6 +809,11 @@ fn main() {
         fns: HashMap::new(),
         consts: HashMap::new(),
         omitted: Default::default(),
+        macros: HashMap::new(),
+        deleg: HashMap::new(),
+        limb_ok: Err("the extension (rules 14-23) is not active in this run".into()),
+        number_default: struct_fields(&files["number.rs"], "Number").map(|(_, s)| has_derive(&s.attrs, "Default")).unwrap_or(false),
+        shl_limbs_ok: false,
     };
     for it in &files["num.rs"].items {
         if let syn::Item::Trait(t) = it {
@@ -439,7 +834,7 @@ fn main() {
     if g.float_consts.is_empty() {
         fail("num.rs: trait Float not found".into());
     }
-    let tneeds = Needs { c: false, t: true, bt: false, f: false };
+    let tneeds = Needs { c: false, t: true, bt: false, l: false, f: false };
     for (name, want) in [
         ("SMALLEST_POWER_OF_FIVE", Ty::Int(IntTy::I32)),
         ("LARGEST_POWER_OF_FIVE", Ty::Int(IntTy::I32)),
@@ -466,36 +861,92 @@ fn main() {
     }
     g.consts.insert(
         "BASE10_POWERS".into(),
-        GConst { ty: Ty::Powers, term: "BT".into(), needs: Needs { c: false, t: false, bt: true, f: false } },
+        GConst { ty: Ty::Powers, term: "BT".into(), needs: Needs { c: false, t: false, bt: true, l: false, f: false } },
     );
+    if ext {
+        // rules 14, 20, 21, 22: what the extension relies on.  A declaration that changed does not
+        // invalidate Src.v: the functions that depend on it are omitted instead.
+        g.limb_ok = check_limb_decls(&files["bigint.rs"]);
+        if let Err(e) = &g.limb_ok {
+            eprintln!("rs2coq: {}", e);
+        }
+        if g.limb_ok.is_ok() {
+            g.consts.insert("LIMB_BITS".into(), GConst { ty: Ty::Int(IntTy::Usize), term: "64".into(), needs: Needs::default() });
+        }
+        g.shl_limbs_ok = match find_fn(&files["bigint.rs"], "", "shl_limbs") {
+            Some((sig, _)) => {
+                let s = quote::quote!(#sig).to_string().replace(' ', "");
+                s == "fnshl_limbs(x:&mutVecType,n:usize)->Option<()>"
+            }
+            None => false,
+        };
+        // LARGE_POW5 (the 64-bit one) and LARGE_POW5_STEP are fields of `T`
+        for it in &files["table_small.rs"].items {
+            if let syn::Item::Const(c) = it {
+                let ok = match c.ident.to_string().as_str() {
+                    "LARGE_POW5" => cfg_limb64(&c.attrs) == Some(true) && conv_ty(&c.ty).ok() == Some(Ty::Table),
+                    "LARGE_POW5_STEP" => cfg_limb64(&c.attrs).is_none() && conv_ty(&c.ty).ok() == Some(Ty::Int(IntTy::U32)),
+                    _ => false,
+                };
+                if ok {
+                    let ty = if c.ident == "LARGE_POW5" { Ty::Table } else { Ty::Int(IntTy::U32) };
+                    g.consts.insert(c.ident.to_string(), GConst { ty, term: format!("({} T)", c.ident), needs: tneeds });
+                }
+            }
+        }
+        for (fname, file) in &files {
+            let mut m = HashMap::new();
+            for it in &file.items {
+                if let syn::Item::Macro(im) = it {
+                    if im.mac.path.is_ident("macro_rules") {
+                        match macros::parse_macro_rules(im) {
+                            Ok((n, d)) => {
+                                m.insert(n, d);
+                            }
+                            Err(e) => eprintln!("rs2coq: {}: {} (its uses will not be translated)", fname, e),
+                        }
+                    }
+                }
+            }
+            g.macros.insert(fname.clone(), m);
+        }
+        collect_delegations(&files, &mut g);
+    }
 
     // ---- translate (keep going: a function that cannot be translated is omitted, and so are,
     // transitively, its callers; the proofs then fail exactly where they mention it)
-    let only: Vec<String> = args[2..].to_vec();
-    let mut out = prelude();
+    let only: Vec<String> = if ext { vec![] } else { args[2..].to_vec() };
+    let mut outs: Vec<String> = vec![prelude(), prelude_ext(1), prelude_ext(2), prelude_ext(3)];
     let mut omitted: Vec<String> = vec![];
-    for (file, owner, name, fuel) in TARGETS {
+    for tg in TARGETS {
+        if !ext && tg.out != 0 {
+            continue;
+        }
+        let (file, owner, name) = (tg.file, tg.owner, tg.name);
         if !only.is_empty() && !only.contains(&name.to_string()) {
             continue;
         }
         let key = if owner.is_empty() { name.to_string() } else { format!("{}::{}", owner, name) };
-        let res = match find_fn(&files[*file], owner, name) {
-            Some((sig, body)) => translate(&g, owner, sig, body, *fuel),
+        let table_key = if owner.is_empty() { format!("{}:{}", file, name) } else { key.clone() };
+        let res = match find_fn(&files[file], owner, name) {
+            Some((sig, body)) => translate(&g, tg, sig, body),
             None => Err("function not found in the source file".to_string()),
         };
+        let out = &mut outs[tg.out];
         match res {
             Ok((fi, def)) => {
                 out.push_str(&format!("(** {} : `{}` *)\n", file, key));
                 out.push_str(&def);
                 out.push('\n');
-                g.fns.insert(key, fi);
+                g.fns.insert(table_key, fi);
             }
             Err(e) => {
                 let reason = format!("{}: {}", file, e).replace("(*", "( *").replace("*)", "* )").replace('\n', " ");
-                eprintln!("rs2coq: OMITTED rs_{}: {}", name, reason);
-                out.push_str(&format!("(* OMITTED rs_{}: {} *)\n\n", name, reason));
-                g.omitted.insert(key);
-                omitted.push(name.to_string());
+                let cname = if tg.coq.is_empty() { format!("rs_{}", name) } else { tg.coq.to_string() };
+                eprintln!("rs2coq: OMITTED {}: {}", cname, reason);
+                out.push_str(&format!("(* OMITTED {}: {} *)\n\n", cname, reason));
+                g.omitted.insert(table_key);
+                omitted.push(if tg.coq.is_empty() { name.to_string() } else { tg.coq.trim_start_matches("rs_").to_string() });
             }
         }
     }
@@ -504,5 +955,15 @@ fn main() {
     } else {
         eprintln!("rs2coq: omitted: {}", omitted.join(" "));
     }
-    print!("{}", out);
+    match out_dir {
+        None => print!("{}", outs[0]),
+        Some(d) => {
+            for (i, f) in OUT_FILES.iter().enumerate() {
+                let path = format!("{}/{}", d, f);
+                if let Err(e) = std::fs::write(&path, &outs[i]) {
+                    fail(format!("cannot write {}: {}", path, e));
+                }
+            }
+        }
+    }
 }
